@@ -445,6 +445,7 @@ type ReverseReader struct {
 	segments    []*segment
 	segIdx      int // Current segment index (starts at last segment)
 	scanner     *reverseSegmentScanner
+	offset      int64 // Next message is the newest one at or below this offset
 	stopOffset  int64 // Stop reading at this offset (inclusive)
 	uncommitted bool
 }
@@ -492,6 +493,7 @@ func (l *commitLog) NewReverseReader(startOffset int64, uncommitted bool) (*Reve
 		segments:    segments,
 		segIdx:      segIdx,
 		scanner:     scanner,
+		offset:      effectiveStart,
 		stopOffset:  -1, // Read all the way to the beginning by default
 		uncommitted: uncommitted,
 	}, nil
@@ -556,6 +558,15 @@ func (r *ReverseReader) ReadMessage(ctx context.Context, headersBuf []byte) (
 			r.scanner = newReverseSegmentScannerFromEnd(r.segments[r.segIdx])
 			continue
 		}
+		if err == ErrSegmentReplaced {
+			// ErrSegmentReplaced indicates we attempted to read from a log
+			// segment that was replaced due to compaction, so reinitialize the
+			// reader and try again to read from the new segment.
+			if err := r.reinitialize(); err != nil {
+				return nil, 0, 0, 0, pkgErrors.Wrap(err, "failed to reinitialize reader")
+			}
+			continue
+		}
 		if err != nil {
 			return nil, 0, 0, 0, err
 		}
@@ -568,6 +579,25 @@ func (r *ReverseReader) ReadMessage(ctx context.Context, headersBuf []byte) (
 
 		// Extract message from message set
 		msg := msgSet.Message()
+		r.offset = offset - 1
 		return msg, offset, msgSet.Timestamp(), msgSet.LeaderEpoch(), nil
 	}
+}
+
+// reinitialize positions the reader at the newest message at or below its
+// offset in the current segments of the log.
+func (r *ReverseReader) reinitialize() error {
+	segments := r.log.Segments()
+	seg, segIdx := findSegment(segments, r.offset)
+	if seg == nil {
+		return ErrSegmentNotFound
+	}
+	scanner, err := newReverseSegmentScanner(seg, r.offset)
+	if err != nil {
+		return err
+	}
+	r.segments = segments
+	r.segIdx = segIdx
+	r.scanner = scanner
+	return nil
 }
